@@ -85,7 +85,7 @@ func c07Run(index int, raw json.RawMessage) lab.WorkerResult {
 						atomic.StoreInt32(&panicReached, 1)
 						c07Panic(s.PanicKind)
 					}
-				case "write-to-gone", "never-reads":
+				case "write-to-gone", "never-reads", "never-reads-then-unbind", "never-reads-then-fin", "never-reads-then-malformed":
 					big := string(make([]byte, 32<<10))
 					for i := 0; i < 200; i++ {
 						e := r.NewSearchResponseEntry("cn=x")
@@ -286,10 +286,22 @@ func c07Run(index int, raw json.RawMessage) lab.WorkerResult {
 			cl.Close()
 			delivered = true
 		}
-	case "write-to-gone", "never-reads":
+	case "write-to-gone", "never-reads", "never-reads-then-unbind", "never-reads-then-fin", "never-reads-then-malformed":
 		cl, err := dial()
 		if err == nil {
 			_ = cl.Send(simpleReq("search", faultID).Bytes())
+			switch s.Fault {
+			case "never-reads-then-unbind":
+				// the stalled client says goodbye but keeps its socket open and still reads nothing
+				_ = cl.Send(simpleReq("unbind", faultID+1).Bytes())
+			case "never-reads-then-fin":
+				type closeWriter interface{ CloseWrite() error }
+				if cw, ok := rawConn(cl.C).(closeWriter); ok {
+					_ = cw.CloseWrite()
+				}
+			case "never-reads-then-malformed":
+				_ = cl.Send([]byte{0x30, 0x03, 0xff, 0xff, 0xff})
+			}
 			if s.Fault == "write-to-gone" {
 				time.Sleep(2 * time.Millisecond)
 				rst(rawConn(cl.C))
@@ -477,6 +489,8 @@ func TestWorkerMain(t *testing.T) {
 		lab.WorkerMain(c07Run)
 	case "c11":
 		lab.WorkerMain(c11Run)
+	case "c16":
+		lab.WorkerMain(c16ConcRun)
 	default:
 		t.Skip("not a worker process")
 	}
@@ -491,7 +505,7 @@ func c07Enumerate() []c07Scenario {
 			}
 		}
 	}
-	for _, f := range []string{"malformed", "rst-midframe", "truncated-fin", "write-to-gone", "never-reads", "emfile"} {
+	for _, f := range []string{"malformed", "rst-midframe", "truncated-fin", "write-to-gone", "never-reads", "never-reads-then-unbind", "never-reads-then-fin", "never-reads-then-malformed", "emfile"} {
 		out = append(out, c07Scenario{Fault: f})
 	}
 	// descriptor shortages of different lengths and repeated ones
@@ -499,7 +513,7 @@ func c07Enumerate() []c07Scenario {
 		out = append(out, c07Scenario{Fault: "emfile", OutageMs: o[0], Outages: o[1]})
 	}
 	// the same against a server with a TLS configuration, plus clients stalling in the handshake
-	for _, f := range []string{"tls-silent-client", "tls-partial-hello", "malformed", "rst-midframe", "write-to-gone", "never-reads"} {
+	for _, f := range []string{"tls-silent-client", "tls-partial-hello", "malformed", "rst-midframe", "write-to-gone", "never-reads", "never-reads-then-unbind"} {
 		out = append(out, c07Scenario{Fault: f, TLS: true})
 	}
 	for _, op := range []string{"search", "unbind", "default"} {
@@ -570,7 +584,7 @@ func tailOf(s string, n int) string {
 func TestC07Enum(t *testing.T) {
 	lab.SkipIfReplayOther(t, "enum")
 	st := lab.GetStats("C07", "enum")
-	st.SetRule("complete enumeration: handler panic (string / error / nil dereference / custom value) before and after writing a response in the handler of every operation (bind, search, modify, add, delete, extended, StartTLS, unbind, default route) plus malformed frame, RST mid-frame, truncated frame + FIN, handler writing to a client that has gone, client that never reads while the handler writes 6 MB, descriptor exhaustion at accept (RLIMIT_NOFILE lowered in the child; one shortage of 30 / 400 / 1200 ms, 12 of 60 ms, 40 of 10 ms); against a TLS-configured server additionally a client that connects and stays silent or stalls inside its ClientHello; each inside verified request/response traffic of 2 bystander connections, followed by a new connection; executed in worker child processes; oracle = child survives, Run has not returned, every bystander response correct, new connection served; non-trivial = fault actually delivered while >= 1 bystander was exchanging requests; distinct by scenario")
+	st.SetRule("complete enumeration: handler panic (string / error / nil dereference / custom value) before and after writing a response in the handler of every operation (bind, search, modify, add, delete, extended, StartTLS, unbind, default route) plus malformed frame, RST mid-frame, truncated frame + FIN, handler writing to a client that has gone, client that never reads while the handler writes 6 MB (also followed by an Unbind, a half-close or a malformed frame while it keeps its socket open), descriptor exhaustion at accept (RLIMIT_NOFILE lowered in the child; one shortage of 30 / 400 / 1200 ms, 12 of 60 ms, 40 of 10 ms); against a TLS-configured server additionally a client that connects and stays silent or stalls inside its ClientHello; each inside verified request/response traffic of 2 bystander connections, followed by a new connection; executed in worker child processes; oracle = child survives, Run has not returned, every bystander response correct, new connection served; non-trivial = fault actually delivered while >= 1 bystander was exchanging requests; distinct by scenario")
 	defer lab.FlushAll()
 	if lab.ReplayInto(t, st, "enum", c07Exec) {
 		return
